@@ -389,7 +389,7 @@ def run(tier):
     rec.rule = (
         "RSX: all byte strings of length <=%s over 256 symbols, <=%d over 30 symbols (one per tag/class/PDU type/length form), <=%d over 8 symbols at 29 decoder entry points; all truncations, "
         "single substitutions (256), single insertions/deletions (30) and pairs of substitutions (%s) of ~200 skeleton messages; header tampering of every TLV node (17 length forms, 30 tags, "
-        "long-form tags); decrypt path: salt length 0..16 x ciphertext length {0..64, C-16..C} x 3 patterns and every truncation / substitution of an encrypted scoped PDU. "
+        "long-form tags); every relative-OID varbind name of 0..3 octets over 14 symbols after 7 short absolute names; decrypt path: salt length 0..16 x ciphertext length {0..64, C-16..C} x 3 patterns and every truncation / substitution of an encrypted scoped PDU. "
         "PYX end to end: v1, v2c, 7 v3 security configurations x pending {get, get_many, getnext, getbulk, refresh} x skeleton replies (18 value kinds, relative OIDs, error status, Report, "
         "foreign PDU) x all truncations, single substitutions (%s) and header tamperings, applied before sealing (MAC valid) and to the raw datagram. Every input is distinct." % (
             "4 (7 major entry points) / 3" if thorough else "3", 6 if thorough else 5, 10 if thorough else 8, "30x30" if thorough else "8x8", "256 symbols on v2c and AES, 30 elsewhere" if thorough else "30 symbols")
@@ -402,5 +402,5 @@ def run(tier):
     cases = list(gen_cases(tier))
     common.run_cases(rec, work, cases, chunk=1, timeout=900, case_timeout=600)
     n = rec.counters["rsx_decodes"] + rec.counters["datagrams"] + rec.counters["public_calls"]
-    return rec.finish(evaluations=n, distinct_nontrivial=rec.counters["rsx_e1_strings"] + rec.counters["rsx_e2_inputs"] + rec.counters["rsx_e3_inputs"] + rec.counters["rsx_e4_decrypts"] + rec.counters["datagrams"],
+    return rec.finish(evaluations=n, distinct_nontrivial=rec.counters["rsx_e1_strings"] + rec.counters["rsx_e2_inputs"] + rec.counters["rsx_e3_inputs"] + rec.counters["rsx_e4_decrypts"] + rec.counters["rsx_e5_inputs"] + rec.counters["datagrams"],
                       states=n, transitions=n, traces=rec.counters["datagrams"])
